@@ -103,7 +103,7 @@ def pool_api():
 
 def pool_iter():
     exprs = ['a', 'a + b', 'f(a)', 'f()', 'f() + b', 'now() + offset', 'a = 1;; b = a + c', 'f((), x) * y', '(); a', '(), a', ';;a', 'a;;', 'a = b', 'a += b; c', 'f g h', 'f(g(h), i) + j',
-             '(a, (b, c)), d', '((a))', '-a ^ -b', 'a = f(b = c)', '1; 2; x', 'f(();())', 'min(a, ()) + z', '((),(),w)', 'p(q();r)', '""; k', 'true && b || c']
+             '(a, (b, c)), d', '((a))', '-a ^ -b', 'a = f(b = c)', '1; 2; x', 'f(();())', 'min(a, ()) + z', '((),(),w)', 'p(q();r)', '""; k', 'true && b || c', 'total = total + step; other = total', 'a = a + 1; a', '(a, b) = f(c, d)', 'x += y; z -= w', 'f(a, g(b, c), d); e', '(a; b, c); d']
     return [('iter', e, []) for e in exprs]
 
 
